@@ -11,10 +11,11 @@
 (* and a generated pyramid is a sequence of scales                          *)
 (*   [key   : STRING,                                                       *)
 (*    size  : <<..>>, chunk : <<..>>,                                       *)
-(*    ratio : <<<<num,den>>, ..>>]   resolution of the scale divided by the *)
-(*                                   full resolution, EXACT (the harness    *)
-(*                                   divides the two floats as rationals;   *)
-(*                                   <<0,0>> when it does not fit 31 bits)  *)
+(*    ratio : <<<<e,a,b>>, ..>>]     resolution of the scale divided by the *)
+(*                                   full resolution, EXACT = 2^e * a / b   *)
+(*                                   with a, b odd (the harness divides the *)
+(*                                   two floats as rationals; <<0,0,0>>     *)
+(*                                   when a or b does not fit 31 bits)      *)
 (*                                                                          *)
 (* ORACLE layer  ValidPyramid  (from the property text; DESIGN.md 5.C08):   *)
 (*   KeysDistinct    scale keys pairwise distinct                           *)
@@ -77,8 +78,8 @@ PowLeq(r1, e1, r2, e2) ==
 PowLess(r1, e1, r2, e2) == ~PowLeq(r2, e2, r1, e1)
 
 \* ================================================================ ORACLE ==
-FactorExp(sc, a) ==      \* -1 when the ratio is not a power of two
-  IF sc.ratio[a][2] = 1 /\ IsPow2(sc.ratio[a][1]) THEN Log2(sc.ratio[a][1]) ELSE 0 - 1
+FactorExp(sc, a) ==      \* -1 when the ratio is not a power of two >= 1
+  IF sc.ratio[a][2] = 1 /\ sc.ratio[a][3] = 1 /\ sc.ratio[a][1] >= 0 THEN sc.ratio[a][1] ELSE 0 - 1
 
 ClauseKeys(scales) ==
   \A x, y \in 1..Len(scales) : x # y => scales[x].key # scales[y].key
@@ -272,7 +273,7 @@ DesignScale(c, g, L) ==
       ce == ChunkExps(c, g, L)
   IN [key |-> KeyOf(c, g, L),
       size |-> [a \in Axes |-> IF e[a] >= 30 THEN 1 ELSE CeilDiv(c.size[a], Pow2(e[a]))],
-      ratio |-> [a \in Axes |-> IF e[a] <= 30 THEN <<Pow2(e[a]), 1>> ELSE <<0, 0>>],
+      ratio |-> [a \in Axes |-> <<e[a], 1, 1>>],
       chunk |-> [a \in Axes |-> Pow2(ce[a])]]
 DesignScales(c, g) == [k \in 1..g.levels |-> DesignScale(c, g, k - 1)]
 
